@@ -111,7 +111,9 @@ def run(c):
                 rf = d["files"][op["file"]]
                 loaded_names = tuple(sorted(g["name"] for g in prev["groups"]))
                 if ld.get("panic"):
-                    c.fail("oracle", "Load panics", input=inp(si), observed=ld["panic"], expected="nil or an error")
+                    hang = ld["panic"].startswith("Load does not return")
+                    c.fail("oracle", "a Load on an engine with a load history does not return (an earlier call left the engine unusable)" if hang
+                           else "Load panics", input=inp(si), observed=ld["panic"], expected="nil or an error")
                     prev = s
                     continue
                 for f in ("groups_problem", "state0_problem", "state1_problem", "run_problem"):
